@@ -82,7 +82,7 @@ OUTSIDE = {
     "C03": [
         "round trips through the real zlib / bzip2 / LZMA / PKWare / implode / Huffman codecs (external crates or table-driven loops beyond CBMC's reach): "
         "for them only the store-raw rule (any codec behaviour), dispatch consistency and acceptance of every emit-able size pair are decided",
-        "the sparse codec on inputs of more than 8 bytes (cost grows with N^3; 10 bytes: no verdict in 30 min) - in particular the literal-run markers "
+        "the sparse codec on inputs of more than 7 bytes (cost grows with N^3; 8 bytes: no verdict in 20 min) - in particular the literal-run markers "
         "0x80/0x81/0x82, which need a run of 128..130 bytes: the 138-byte harness with per-loop bounds gave no verdict in 50 minutes and is not registered",
         "the bounded-array model of Vec<u8> in the derived copy of sparse.rs is trusted (same observable push / extend_from_slice / resize / len / deref semantics; "
         "checked against the real functions on three concrete vectors)",
@@ -531,9 +531,9 @@ _spfn = ["compression::algorithms::sparse::compress", "compression::algorithms::
 H("C03", "mpq", _SP, "quick", "C03.b sparse codec: decompress(compress(x), len) == x for EVERY input of the length; header == length; stored form within the encoder's worst-case bound",
   ["c03b_sparse_roundtrip_n%d" % n for n in (1, 2, 3, 4, 5)], _spfn,
   "input [u8; N] fully symbolic", "N in 1..=5", stubs=[FMT, BVEC], timeout=900)
-H("C03", "mpq", _SP, "thorough", "C03.b sparse codec round trip, 6..8 bytes",
-  ["c03b_sparse_roundtrip_n%d" % n for n in (6, 7, 8)], _spfn,
-  "input [u8; N] fully symbolic", "N in {6, 7, 8} (N >= 10: no verdict in 30 min)", stubs=[FMT, BVEC], timeout=2400)
+H("C03", "mpq", _SP, "thorough", "C03.b sparse codec round trip, 6 and 7 bytes",
+  ["c03b_sparse_roundtrip_n%d" % n for n in (6, 7)], _spfn,
+  "input [u8; N] fully symbolic", "N in {6, 7} (N = 8: 11.7 GB and no verdict after 20 min; N >= 10: none in 30 min)", stubs=[FMT, BVEC], timeout=2400)
 # c03b_sparse_roundtrip_run_n9 (shape harness at 9 bytes) is NOT registered: 10.8 GB after 7.5 min; the full 1..=8 byte harnesses subsume it.
 # c03b_sparse_roundtrip_run_127_131_n138 (138-byte inputs whose literal run crosses the 0x80/0x81/0x82 markers) is NOT registered:
 # with per-loop unwinding bounds (unwindset, below) it runs out of the 30 GB cap in CBMC's array theory, with field-sensitive arrays
